@@ -80,7 +80,35 @@ def check_roundtrip(inp):
                 keep.append((so, str(so), str(so.root)))
             except Exception:
                 pass
-    o = OBDD(bdd.to_str(e, 'sym', 'sym'), list(args))
+    if inp.get('route') == 'nodes':
+        # "for every OBDD o": this one is assembled through the programmatic API - leaves from BDDNode
+        # with variable names computed at run time (fresh str objects), combined with & | ~ - and
+        # never comes from text
+        from pyModelChecking.BDD import BDDNode
+
+        def build(x):
+            if x[0] == 'v':
+                return OBDD(BDDNode(bdd.fresh_str(x[1]), BDDNode(0), BDDNode(1)), [bdd.fresh_str(a) for a in args])
+            if x[0] == 'c':
+                return OBDD(BDDNode(x[1]), [bdd.fresh_str(a) for a in args])
+            if x[0] == 'not':
+                return ~build(x[1])
+            acc = build(x[1])
+            for c in x[2:]:
+                acc = (acc & build(c)) if x[0] == 'and' else (acc | build(c))
+            return acc
+        try:
+            o = build(e)
+        except Exception as ex:
+            return Failure('roundtrip', inp, 'the OBDD can be assembled from nodes', 'raised %s: %s' % (type(ex).__name__, ex))
+        if bdd.walk_tt(o.root, tuple(args)) != bdd.eval_tt(e, tuple(args)):
+            return Failure('roundtrip', inp, 'the assembled OBDD denotes the expression', 'another function')
+        parsed = _try(lambda: OBDD(bdd.to_str(e, 'sym', 'sym'), list(args)))
+        if parsed[0] != 'ok' or not (parsed[1] == o):
+            return Failure('roundtrip', inp, 'OBDD(expr, args) == the same function assembled from nodes',
+                           list(parsed) if parsed[0] != 'ok' else 'a different OBDD')
+    else:
+        o = OBDD(bdd.to_str(e, 'sym', 'sym'), list(args))
     if inp.get('warm'):
         for v in args:
             for b in (0, 1):
@@ -228,11 +256,14 @@ def enum_shard(st, shard, nshards, payload):
             if not set(used) <= set(args):
                 continue
             inp = {'e': e, 'args': args}
-            for name in ('notation', 'roundtrip', 'roundtrip-warm'):
+            for name in ('notation', 'roundtrip', 'roundtrip-warm', 'roundtrip-nodes'):
                 st.evaluations += 1
                 try:
                     if name == 'roundtrip-warm':
                         f = check_roundtrip(dict(inp, warm=True))
+                    elif name == 'roundtrip-nodes':
+                        st.bump('round trip of an OBDD assembled from nodes')
+                        f = check_roundtrip(dict(inp, route='nodes'))
                     else:
                         f = CHECKS[name](inp)
                 except core.HarnessError:
@@ -320,6 +351,9 @@ def random_shard(st, shard, nshards, payload):
             if f is not None:
                 return f
         f = check_roundtrip(dict(inp, warm=True))
+        if f is None:
+            st.bump('random: round trip of an OBDD assembled from nodes')
+            f = check_roundtrip(dict(inp, route='nodes', warm=bool(len(inp['args']) % 2)))
         if f is not None:
             return f
         used = sorted(bdd.variables_of(e))
